@@ -236,3 +236,12 @@ impl<F: ff::Field> subtle::ConstantTimeEq for CubicExtField<F> {
         self.c0.ct_eq(&other.c0) & self.c1.ct_eq(&other.c1) & self.c2.ct_eq(&other.c2)
     }
 }
+
+/// Verification hook (feature `verif-hooks`, add-only): read access to the three coefficients.
+#[cfg(feature = "verif-hooks")]
+impl<F: ff::Field> CubicExtField<F> {
+    /// verif hook: the coefficients `(c0, c1, c2)` of `c0 + c1·X + c2·X²`.
+    pub fn verif_coeffs(&self) -> (F, F, F) {
+        (self.c0, self.c1, self.c2)
+    }
+}
